@@ -45,6 +45,8 @@ def _go_build_tagged(ctx, moddir, pkg, outname, tags='verif', race=False):
     tag c19boot (first-boot crash points); on other trees those ops are not generated."""
     if outname == 'c19' and tags and os.path.exists(os.path.join(ctx.repo, 'src', 'core', 'verif_c19_boot.go')):
         tags = tags + ',c19boot'
+    if outname == 'c19' and tags and os.path.exists(os.path.join(ctx.repo, 'src', 'core', 'verif_c19_fork.go')):
+        tags = tags + ',c19fork'
     hookf = os.path.join(ctx.repo, 'src', 'middleware', 'db', 'verif_c19_hook.go')
     if outname == 'c19' and tags and os.path.exists(hookf) and 'VerifWriteFault' in open(hookf).read():
         tags = tags + ',c19fault'
@@ -103,7 +105,7 @@ def correspond(ctx):
         # every start-up costs ~0.5 MB that is never collected (see harness main): run in parts
         parts = 5
         for i in range(parts):
-            c = vlib.correspond(ctx, 'c19', 'C19', ['mode=corr', 'seqs=100', 'maxops=30', 'depth=5', 'part=%d/%d' % (i, parts)],
+            c = vlib.correspond(ctx, 'c19', 'C19', ['mode=corr', 'seqs=60', 'maxops=30', 'depth=5', 'part=%d/%d' % (i, parts)],
                                 timeout=1200)
             c['name'] = 'groupchain-part%d' % i
             c['violations'] = _side_viols(c, ctx)
